@@ -22,7 +22,9 @@ import json
 PROPERTY = "C17"
 RULE = ("stream cases = random selection under the subscription field (depth<=2: leaf/object/list fields, sync and async field "
         "resolvers, interface- and union-typed payloads whose implementations Dog/Cat declare the same fields with different argument "
-        "defaults, nested and in lists, the runtime type changing between events and inside one event) x operation VARIABLES (declared defaults not sent, explicit null, enum and input-object variables, variables in "
+        "defaults, nested and in lists, the runtime type changing between events and inside one event) x source events that are FALSY values (None, 0, "", {}, [], False) at every position x the resolver of a selected field "
+        "re-registered on the schema (register_resolver(allow_override=True)) between events k and k+1 of the open subscription "
+        "(k-th result compared with a fresh execution under the resolvers registered at that moment) x operation VARIABLES (declared defaults not sent, explicit null, enum and input-object variables, variables in "
         "@skip/@include of the event selection and in the subscription field's own argument; k-th result compared with the one-event "
         "execution under the same variables) x lazy | eager subscription resolver (takes the head of the backlog when called; refusals "
         "must leave the resolver uncalled and the source untouched, on every runtime class) x stream driven by `async for` | "
@@ -86,6 +88,18 @@ AOBJ = ("pal",)
 ALST = ("pals",)
 SPECIES = ("Dog", "Cat")
 DRIVES = ("async-for", "anext", "anext-aiter-mid", "aclose-mid")
+# source events that are FALSY values (the stream must neither end nor skip on them); below such a root every leaf resolves to 0
+FALSY_EVENTS = [None, 0, "", {}, [], False]
+FALSY_EVENT = {"id": -1, "val": 0, "fail": [], "null": [], "len": {}, "species": {}}
+SWAP_DELTA = 1000      # the re-registered resolver of Evt.a returns val + SWAP_DELTA
+
+
+def is_event(ev):
+    return isinstance(ev, dict) and "id" in ev
+
+
+def has_animals(sel):
+    return any(t["f"] in APET or has_animals(t["sel"]) for t in sel)
 # operation VARIABLES (declared with defaults; the request sends a subset): name -> (type, default literal, default value, values a request may send)
 VARS = {
     "n": ("Int", "5", 5, [6, 0]),                       # the subscription field's own argument: ev(n: $n)
@@ -295,6 +309,15 @@ def gen_case(rng):
     if rng.random() < 0.25:
         case["shared_root"] = rng.choice(["all", "query"])
     case["drive"] = rng.choice(DRIVES)
+    if n and not has_animals(sel) and rng.random() < 0.25:
+        for i in range(n):
+            if rng.random() < 0.4:
+                case["events"][i] = copy.deepcopy(rng.choice(FALSY_EVENTS))
+    if n >= 2 and rng.random() < 0.25:
+        case["swap"] = rng.randint(0, n - 2)       # Evt.a is re-registered between events swap and swap+1
+        if not any(t["f"] == "a" for t in sel):
+            counter[0] += 1
+            sel.append({"k": "k%d" % counter[0], "f": "a", "sel": []})
     if "root" not in case and rng.random() < 0.3:
         case["vars"] = gen_vars(rng)
     case["eager_head"] = rng.random() < 0.3
@@ -449,6 +472,7 @@ def agen_of(src):
 
 
 _SCHEMAS = {}
+_SWAP_FN = {}
 
 
 def schemas(mode):
@@ -461,6 +485,8 @@ def schemas(mode):
     def outcome(root, info):
         tick(info)
         ps = "/".join(str(x) for x in info.path)
+        if not (isinstance(root, dict) and "id" in root):
+            return ps           # a falsy / foreign event used as root value: nothing fails below it
         if ps in root["fail"]:
             raise ResolverError("fail@%d %s" % (root["id"], ps))
         return ps
@@ -472,6 +498,8 @@ def schemas(mode):
 
     def value(root, info, name):
         ps = outcome(root, info)
+        if not (isinstance(root, dict) and "id" in root):
+            root = FALSY_EVENT
         if name in LEAF:
             return root["val"]
         if ps in root["null"]:
@@ -479,6 +507,10 @@ def schemas(mode):
         if name in OBJ:
             return root
         return [root] * root["len"].get(ps, 1)
+
+    def swapped_a(root, ctx, info, **args):
+        return value(root, info, "a") + SWAP_DELTA
+    _SWAP_FN[mode] = swapped_a
 
     def mk(name, is_async):
         if is_async:
@@ -562,6 +594,8 @@ def schemas(mode):
         ref[0] = Evt
 
         def root_resolver(event, ctx, info, **args):
+            if not (isinstance(event, dict) and "id" in event):
+                return event        # None -> null; 0, "", {}, [], False are root values like any other
             if "root" in event["fail"]:
                 raise ResolverError("fail@%d root" % event["id"])
             return event
@@ -680,6 +714,8 @@ def run_real(case, scale=1):
             rt = AsyncIORuntime(loop=loop, execute_blocking_functions_in_thread=bool(case["threads"]))
 
         results = []
+        swap = case.get("swap")
+        swapped = [None]
         stage = ["subscribing"]
         stall_iters = STALL_ITERS * max(scale, 1)
         # confirmation: >= 60 s without ANY observable progress; scale 0: the verdict will not be used (see run_confirmed)
@@ -733,6 +769,11 @@ def run_real(case, scale=1):
                 else:
                     await asyncio.sleep(0)
                 if len(src.gates) > opened:
+                    if swap is not None and opened == swap + 1 and swapped[0] is None and len(results) >= opened:
+                        # events 0..swap are fully processed, event swap+1 is not pulled yet: re-register Evt.a on the OPEN subscription
+                        evt = sub_schema.get_type("Evt")
+                        swapped[0] = evt.field_map["a"].resolver
+                        sub_schema.register_resolver("Evt", "a", _SWAP_FN["async"], allow_override=True)
                     d = delays[opened] if opened < len(delays) else 0
                     for _ in range(d):
                         await asyncio.sleep(0)
@@ -766,6 +807,8 @@ def run_real(case, scale=1):
         except Exception as e:  # noqa
             out["err"] = "internal:%s" % type(e).__name__
     finally:
+        if "swapped" in dir() and swapped[0] is not None:
+            sub_schema.register_resolver("Evt", "a", swapped[0], allow_override=True)
         try:
             for t in asyncio.all_tasks(loop):
                 t.cancel()
@@ -792,8 +835,17 @@ def expected_results(case):
     twin = schemas("sync")[1]
     _, qtext = documents(case)
     out = []
-    for ev in case["events"]:
-        res = graphql_blocking(twin, qtext, root=copy.deepcopy(ev), variables=request_extras(case)[1])
+    swap = case.get("swap")
+    for k, ev in enumerate(case["events"]):
+        after = swap is not None and k > swap
+        if after:
+            orig = twin.get_type("Evt").field_map["a"].resolver
+            twin.register_resolver("Evt", "a", _SWAP_FN["sync"], allow_override=True)
+        try:
+            res = graphql_blocking(twin, qtext, root=copy.deepcopy(ev), variables=request_extras(case)[1])
+        finally:
+            if after:
+                twin.register_resolver("Evt", "a", orig, allow_override=True)
         out.append(res.response())
     return out
 
@@ -850,7 +902,7 @@ def oracle(case, real):
     for k in range(n):
         g = canon_response(got[k], unordered)
         w = canon_response(want[k], unordered)
-        tag = "fail@%d " % case["events"][k]["id"]
+        tag = "fail@%d " % (case["events"][k]["id"] if is_event(case["events"][k]) else -1)
         foreign = [e for e in g["errors"] if not (e["message"] or "").startswith(tag)]
         if foreign:
             bad.append(("errors-not-isolated:%s" % ("earlier" if any((e["message"] or "").startswith("fail@") for e in foreign) else "other"),
@@ -881,9 +933,14 @@ def has_async_field(sel):
 # ---------------------------------------------------------------------------------------------
 # model
 # ---------------------------------------------------------------------------------------------
-def event_tree(case, ev):
+def event_tree(case, ev, k=0):
     """abstract outcome tree of one event under the root selection (what Subscribe.lean executes)"""
+    if ev is None:
+        return [{"k": "root", "o": "ret", "c": {"t": "null"}}]       # the root field resolves to null
+    if not is_event(ev):
+        ev = FALSY_EVENT                                               # 0, "", {}, [], False: a root value like any other
     species = ev.get("species", {})
+    bump = SWAP_DELTA if (case.get("swap") is not None and k > case["swap"]) else 0      # Evt.a re-registered before this event
 
     def nodes(sel, prefix, sp=None):
         out = []
@@ -897,7 +954,7 @@ def event_tree(case, ev):
             dflt_evt = [{"k": "zz", "f": "a", "sel": []}]
             dflt_animal = [{"k": "zz", "f": "voice", "sel": []}]
             if f in LEAF:
-                c = {"t": "leaf", "v": ev["val"]}
+                c = {"t": "leaf", "v": ev["val"] + (bump if f == "a" else 0)}
             elif f in ALEAF:
                 c = {"t": "leaf", "v": animal_value(sp, f)}
             elif ps in ev["null"]:
@@ -918,7 +975,7 @@ def event_tree(case, ev):
         return [{"k": "root", "o": "raise"}]
     fs = nodes(case["sel"] or [{"k": "zz", "f": "a", "sel": []}], ("root",))
     if case.get("vars"):
-        fs += [{"k": k, "o": "ret", "c": {"t": "leaf", "v": v}} for k, v in var_fields(case, ev)]
+        fs += [{"k": kk, "o": "ret", "c": {"t": "leaf", "v": v + (bump if kk in ("vs", "vi") else 0)}} for kk, v in var_fields(case, ev)]
     return [{"k": "root", "o": "ret", "c": {"t": "obj", "fs": fs}}]
 
 
@@ -943,7 +1000,7 @@ def model_request(case):
         "streamRuntime": r not in ("blocking-runtime", "threadpool-runtime"),
         "opsel": "error" if r in ("opsel-unknown", "opsel-ambiguous") else "ok",
         "vars": "error" if r == "vars" else "ok",
-        "events": [event_tree(case, ev) for ev in case["events"]],
+        "events": [event_tree(case, ev, k) for k, ev in enumerate(case["events"])],
     }
 
 
@@ -1000,6 +1057,8 @@ def shrink(case, failing, budget=40):
                 pass
             yield d
         for i, e in enumerate(c["events"]):
+            if not is_event(e):
+                continue
             for key in ("fail", "null"):
                 for j in range(len(e[key])):
                     d = copy.deepcopy(c); del d["events"][i][key][j]; yield d
@@ -1044,7 +1103,11 @@ def check_cases(ctx, cases):
             ctx.stat("events=%d" % len(case["events"]))
             ctx.stat("async_sub=%s" % case["async_sub"])
             ctx.stat("source=" + case["source"])
-            ctx.stat("failing_events=%d" % sum(1 for e in case["events"] if e["fail"]))
+            ctx.stat("failing_events=%d" % sum(1 for e in case["events"] if is_event(e) and e["fail"]))
+            if any(not is_event(e) for e in case["events"]):
+                ctx.stat("falsy_events")
+            if case.get("swap") is not None:
+                ctx.stat("resolver_re-registered_mid-stream")
             if case["threads"]:
                 ctx.stat("thread_offloaded")
         if case["kind"] == "refusal" or len(case["events"]) >= 2:
@@ -1057,12 +1120,15 @@ def check_cases(ctx, cases):
                 return None
             seen = ctx.extra.setdefault("_shrunk", {})
             cls = sig.split(":")[0]
-            if cls == "hang" or seen.get(("n", cls), 0) >= 2:      # shrink the first cases of a failure class only (time)
-                ctx.fail(seen.get(("sig", sig), sig), what, {"case": case})
+            if cls == "hang" or seen.get("n|" + cls, 0) >= 2:      # shrink the first cases of a failure class only (time)
+                ctx.fail(seen.get("sig|" + sig, sig), what, {"case": case})
                 continue
-            seen[("n", cls)] = seen.get(("n", cls), 0) + 1
-            small, ssig = shrink(case, failing)
-            seen[("sig", sig)] = ssig or sig
+            seen["n|" + cls] = seen.get("n|" + cls, 0) + 1
+            try:
+                small, ssig = shrink(case, failing)
+            except Exception:  # noqa  (a shrinker problem must never hide the failure it was shrinking)
+                small, ssig = case, sig
+            seen["sig|" + sig] = ssig or sig
             ctx.fail(ssig or sig, what, {"case": small})
     if not ctx.model_ok:
         return
@@ -1123,6 +1189,28 @@ def exhaustive_cases():
                 out.append({"kind": "stream", "refusal": None, "async_sub": a, "source": "agen" if a else "iter", "threads": False,
                             "sel": copy.deepcopy(sel), "delays": [0] * (nev + 1), "drive": drive,
                             "events": [{"id": i, "val": i, "fail": ["root/x"] if i == 1 else [], "null": [], "len": {}} for i in range(nev)]})
+    # FALSY source events (None, 0, "", {}, [], False) at every position of a 3-event stream, and all-falsy streams
+    okev = lambda i: {"id": i, "val": 10 + i, "fail": ["root/x"] if i == 1 else [], "null": [], "len": {}}  # noqa
+    n = 0
+    for fv in FALSY_EVENTS:
+        for pos in range(3):
+            n += 1
+            evs = [okev(i) for i in range(3)]
+            evs[pos] = copy.deepcopy(fv)
+            out.append({"kind": "stream", "refusal": None, "async_sub": bool(n % 2), "source": "iter" if n % 2 else "agen", "threads": False,
+                        "sel": copy.deepcopy(sel), "delays": [0, n % 2, 0, 0], "drive": DRIVES[n % len(DRIVES)], "events": evs})
+        out.append({"kind": "stream", "refusal": None, "async_sub": False, "source": "agen", "threads": False, "sel": copy.deepcopy(sel),
+                    "delays": [0] * 4, "drive": "async-for", "events": [copy.deepcopy(fv), copy.deepcopy(fv)]})
+    out.append({"kind": "stream", "refusal": None, "async_sub": True, "source": "iter", "threads": False, "sel": copy.deepcopy(sel),
+                "delays": [0] * 8, "drive": "anext", "events": copy.deepcopy(FALSY_EVENTS)})
+    # the resolver of Evt.a is re-registered on the schema between events k and k+1 of an OPEN subscription
+    asel = [{"k": "x", "f": "a", "sel": []}, {"k": "y", "f": "o", "sel": [{"k": "z", "f": "a", "sel": []}, {"k": "w", "f": "bad", "sel": []}]}]
+    for nev in (2, 3, 4):
+        for k in range(nev - 1):
+            for a in (False, True):
+                out.append({"kind": "stream", "refusal": None, "async_sub": a, "source": "iter" if a else "agen", "threads": False,
+                            "sel": copy.deepcopy(asel), "delays": [0] * (nev + 1), "drive": DRIVES[(nev + k) % len(DRIVES)], "swap": k,
+                            "events": [{"id": i, "val": 10 + i, "fail": ["root/y/w"] if i == 1 else [], "null": [], "len": {}} for i in range(nev)]})
     # operations with VARIABLES: nothing sent (all declared defaults), each variable alone (every choice), everything sent
     sends = [{}]
     for name, (_t, _l, _d, choices) in VARS.items():
@@ -1177,24 +1265,26 @@ def corpus_cases():
 
 
 def run(ctx):
-    cases = corpus_cases() + exhaustive_cases()
-    ctx.extra["exhaustive_block_cases"] = len(cases)
-    check_cases(ctx, cases)
-    n = ctx.n(1000, 8000)
-    batch = []
-    for i in range(n):
-        if ctx.time_left() < 15:
-            ctx.notes.append("stopped generation early after %d random cases (time budget)" % i)
-            break
-        batch.append(gen_case(ctx.rng))
-        if len(batch) >= 300:
+    try:
+        cases = corpus_cases() + exhaustive_cases()
+        ctx.extra["exhaustive_block_cases"] = len(cases)
+        check_cases(ctx, cases)
+        n = ctx.n(1000, 8000)
+        batch = []
+        for i in range(n):
+            if ctx.time_left() < 15:
+                ctx.notes.append("stopped generation early after %d random cases (time budget)" % i)
+                break
+            batch.append(gen_case(ctx.rng))
+            if len(batch) >= 300:
+                check_cases(ctx, batch)
+                batch = []
+        if batch:
             check_cases(ctx, batch)
-            batch = []
-    if batch:
-        check_cases(ctx, batch)
-    c = cases[5]
-    ctx.sample({"document": documents(c)[0], "events": c["events"], "results": run_real(c)["results"]})
-    _cleanup(ctx)
+        c = cases[5]
+        ctx.sample({"document": documents(c)[0], "events": c["events"], "results": run_real(c)["results"]})
+    finally:
+        _cleanup(ctx)
 
 
 def _cleanup(ctx):
